@@ -1,10 +1,11 @@
 #!/bin/bash
+HERE=$(cd "$(dirname "$0")" && pwd)
 # usage: allseeds.sh <tier> <seed>...  -- runs every registered check at the given seeds, prints non-zero exits
 TIER=$1; shift
 for s in "$@"; do
-  for p in C01 C02 C03 C04 C05 C06 C07 C08 C09 C10 C11 C12 C13 C14 C15 C16 C17 C18 C19 C20; do
+  for p in ${PROPS:-C01 C02 C03 C04 C05 C06 C07 C08 C09 C10 C11 C12 C13 C14 C15 C16 C17 C18 C19 C20}; do
     t0=$(date +%s)
-    out=$(VERIF_SEED=$s /verif/check $p $TIER 2>/dev/null); rc=$?
+    out=$(VERIF_SEED=$s "$HERE/../check" $p $TIER 2>/dev/null); rc=$?
     t1=$(date +%s)
     echo "seed=$s $p rc=$rc $((t1-t0))s $(echo "$out" | tail -1 | cut -c1-160)"
     if [ $rc -ne 0 ]; then echo "$out" | grep -E "^(VIOLATION|INCONCLUSIVE|  rule)" | head -8; fi
